@@ -100,6 +100,7 @@ func runCase(stream []byte, sizes []int, bufsize int, eofWith bool) (got []strin
 		}
 	}
 	lr.Finish(ctx)
+	lr.VerifStopTimer()
 	close(lines)
 	for l := range lines {
 		got = append(got, l.Line)
